@@ -181,7 +181,7 @@ class World:
             t.start()
             self._wait_arrival(p, before)
 
-    def _wait_arrival(self, p, before, timeout=60):
+    def _wait_arrival(self, p, before, timeout=600):
         ok = self.cv.wait_for(lambda: self.arrivals.get(p, 0) > before, timeout=timeout)
         if not ok:
             raise RuntimeError(f"process {p} did not reach a gate")
